@@ -79,6 +79,13 @@ def oracle(case):
             backs.append(("loads(dumps([{k: x}]))", msg["params"][1]["k"]))
             text = J.dumps(v, methodresponse=True, rpcid=1, config=cfg)
             backs.append(("loads(dumps(result x))", J.loads(text, cfg)["result"]))
+            # the object as a named parameter, and inside a result that is a dict / a tuple
+            text = J.dumps({"k": v, "n": 1}, "m", config=cfg)
+            backs.append(("loads(dumps({k: x} as named params))", J.loads(text, cfg)["params"]["k"]))
+            text = J.dumps({"k": v}, methodresponse=True, rpcid=1, config=cfg)
+            backs.append(("loads(dumps(result {k: x}))", J.loads(text, cfg)["result"]["k"]))
+            text = J.dumps((v, 0), methodresponse=True, rpcid=1, config=cfg)
+            backs.append(("loads(dumps(result (x, 0)))", J.loads(text, cfg)["result"][0]))
         else:
             from vlib.loopback import DispatcherTransport
             disp = SimpleJSONRPCDispatcher(config=cfg)
